@@ -36,6 +36,11 @@ then quantifies over paths: "whenever <outcome> then <atoms decided so / writes 
               last status was not NOT_WORKING; a blocked healthy battery is UNCERTAIN and WORKING is
               returned only when is_blocked() was false or the recovery from NOT_WORKING cleared it; uncertain
               components are returned exactly when the working intersection is empty.
+  C16.POOL    ComponentPoolStatusTracker._update_status (what consumers see): for every status message
+              and every path consistent with a status value (the enum is closed), the reported
+              component ends in `working` only for WORKING, in `uncertain` only for UNCERTAIN and in
+              neither set for NOT_WORKING (last add / discard / remove on each published set for that
+              id), and the updated status is sent afterwards on every path.
 """
 from __future__ import annotations
 
@@ -287,53 +292,65 @@ def check_safe(run: Run, prog: Program) -> None:  # noqa: C901
 
 
 # ------------------------------------------------------------------------------ the select loop
-def _contains_select_loop(s: ast.AST) -> bool:
-    return any(isinstance(n, ast.AsyncFor) and isinstance(n.iter, ast.Call) and u(n.iter.func) == "select"
-               for n in ast.walk(s))
+def _is_select_loop(n: ast.AST) -> bool:
+    return isinstance(n, ast.AsyncFor) and isinstance(n.iter, ast.Call) and u(n.iter.func) == "select"
 
 
-def loop_paths(prog: Program, rn: FuncInfo) -> tuple[list[PathSum], list[ast.AST], list[ast.stmt]]:
-    """Paths through one iteration of the `async for selected in select(...)` body of `_run`: the
-    straight-line code leading to the loop is executed first (receiver / timer aliases), names
-    assigned inside the body start each iteration unknown, the loop variable is SELECTED.
-    Also returned: the resolved arguments of `select(...)` and the compound statements enclosing
-    the loop (outermost first)."""
-    ex = Exec(prog, rn, bool_attrs={FLAG})
-    node = ex.prepared(rn)
-    names = [a.arg for a in node.args.args][1:]
-    st: State = ex.initial(dict(zip(names, ["STATUS_SENDER", "SET_POWER_RESULT_RECEIVER"])))
-    suite = node.body
+def iteration_paths(ex: Exec, fn: FuncInfo, st: State, is_loop: Callable[[ast.AST], bool], var: str, what: str
+                    ) -> tuple[list[PathSum], ast.AsyncFor, list[ast.stmt], State]:
+    """Paths through one iteration of the (single) loop of `fn` satisfying `is_loop`: the straight-line
+    code leading to the loop is executed first (aliases), names assigned inside the body start each
+    iteration unknown, the loop variable is bound to the canonical name `var`.  Also returned: the loop
+    statement, the compound statements enclosing it (outermost first) and the state at loop entry."""
+    def contains(x: ast.AST) -> bool:
+        return any(is_loop(n) for n in ast.walk(x))
+    suite = ex.prepared(fn).body
     chain: list[ast.stmt] = []
     try:
         while True:
-            idx = [i for i, s in enumerate(suite) if _contains_select_loop(s)]
+            idx = [i for i, s in enumerate(suite) if contains(s)]
             if len(idx) != 1:
-                raise AnalysisError(f"{rn.qual}: expected exactly one select loop")
+                raise AnalysisError(f"{fn.qual}: expected exactly one {what}")
             pre = ex.run_suite(suite[:idx[0]], st)
             if len(pre) != 1 or pre[0].exit != "fall":
-                raise AnalysisError(f"{rn.qual}: the code leading to the select loop branches")
+                raise AnalysisError(f"{fn.qual}: the code leading to the {what} branches")
             st = pre[0].state
             s = suite[idx[0]]
-            if isinstance(s, ast.AsyncFor) and isinstance(s.iter, ast.Call) and u(s.iter.func) == "select":
+            if is_loop(s):
                 break
-            if isinstance(s, (ast.While, ast.Try, ast.With, ast.AsyncWith)) and not _contains_select_loop(
+            if isinstance(s, (ast.While, ast.Try, ast.With, ast.AsyncWith)) and not contains(
                     ast.Module(body=getattr(s, "orelse", []) + getattr(s, "finalbody", []), type_ignores=[])):
                 suite = s.body
                 chain.append(s)
                 continue
-            raise AnalysisError(f"{rn.qual}: select loop inside an unexpected `{type(s).__name__}`")
-        if not isinstance(s.target, ast.Name):
-            raise AnalysisError(f"{rn.qual}: select loop variable is not a plain name")
+            raise AnalysisError(f"{fn.qual}: {what} inside an unexpected `{type(s).__name__}`")
+        assert isinstance(s, ast.AsyncFor)
+        if not isinstance(s.target, ast.Name) or s.orelse:
+            raise AnalysisError(f"{fn.qual}: the variable of the {what} is not a plain name (or the loop has an else)")
         for n in ast.walk(ast.Module(body=s.body, type_ignores=[])):
             if isinstance(n, ast.Name) and isinstance(n.ctx, ast.Store):
                 st.locals[n.id] = ast.Name(id=f"PREVIOUS<{n.id}>", ctx=ast.Load())
-        sel_args = [ex._res(a, st) for a in s.iter.args]
-        st.locals[s.target.id] = ast.Name(id="SELECTED", ctx=ast.Load())
+        entry = st.fork()
+        st.locals[s.target.id] = ast.Name(id=var, ctx=ast.Load())
         st.events.clear()
         paths = ex.run_suite(s.body, st)
     except Unsupported as exc:
+        raise AnalysisError(f"{fn.qual}: cannot be interpreted path by path ({exc})") from exc
+    return [p for p in paths if p.exit != "raise"], s, chain, entry
+
+
+def loop_paths(prog: Program, rn: FuncInfo) -> tuple[list[PathSum], list[ast.AST], list[ast.stmt]]:
+    """One iteration of the `async for selected in select(...)` body of `_run` (loop variable SELECTED), the
+    resolved arguments of `select(...)` and the compound statements enclosing the loop."""
+    ex = Exec(prog, rn, bool_attrs={FLAG})
+    names = [a.arg for a in ex.prepared(rn).args.args][1:]
+    st: State = ex.initial(dict(zip(names, ["STATUS_SENDER", "SET_POWER_RESULT_RECEIVER"])))
+    paths, loop, chain, entry = iteration_paths(ex, rn, st, _is_select_loop, "SELECTED", "select loop")
+    try:
+        sel_args = [ex._res(a, entry) for a in loop.iter.args]  # type: ignore[attr-defined]
+    except Unsupported as exc:
         raise AnalysisError(f"{rn.qual}: cannot be interpreted path by path ({exc})") from exc
-    return [p for p in paths if p.exit != "raise"], sel_args, chain
+    return paths, sel_args, chain
 
 
 def source_of(x: ast.AST) -> str | None:
@@ -682,6 +699,89 @@ def check_block(run: Run, prog: Program) -> None:  # noqa: C901
               path=wit(bad))
 
 
+# ------------------------------------------------------------------------------ the published pool status
+POOLMOD = "microgrid._power_distributing._component_pool_status_tracker"
+POOL = f"{POOLMOD}:ComponentPoolStatusTracker"
+# what each reported status must leave behind in the two published sets, for the reported component
+MEMBERSHIP = {"WORKING": {"working": "in", "uncertain": "out"},
+              "UNCERTAIN": {"working": "out", "uncertain": "in"},
+              "NOT_WORKING": {"working": "out", "uncertain": "out"}}
+
+
+def check_pool(run: Run, prog: Program) -> None:
+    """ComponentPoolStatusTracker._update_status: for every status message, on every path, the reported component
+    ends up in `working` only for WORKING, in `uncertain` only for UNCERTAIN, in neither for NOT_WORKING, and the
+    updated pool status is published."""
+    members = [t.id for s in prog.cls(f"{CSMOD}:ComponentStatusEnum").node.body if isinstance(s, ast.Assign)
+               for t in s.targets if isinstance(t, ast.Name)]
+    if set(members) != set(MEMBERSHIP):
+        raise AnalysisError(f"ComponentStatusEnum members changed: {members}")
+    fn = prog.func(f"{POOL}._update_status")
+    run.analysed(fn.qual)
+    ex = Exec(prog, fn)
+    paths, _loop, _chain, _entry = iteration_paths(
+        ex, fn, ex.initial(), lambda n: isinstance(n, ast.AsyncFor), "STATUS", "status loop")
+    ident = "STATUS.component_id"
+
+    def possible(p: PathSum) -> set[str]:
+        """Status values consistent with the conditions on STATUS.value decided on p (the enum is closed)."""
+        out = set(members)
+        for a, v in p.atoms_where(lambda a: any(text(o) == "STATUS.value" for o in a.ops)):
+            others = [text(o) for o in a.ops if text(o) != "STATUS.value"]
+            if a.kind in ("eq", "is") and len(others) == 1 and others[0].startswith("ComponentStatusEnum."):
+                named = {others[0].split(".", 1)[1]}
+            elif a.kind == "in" and text(a.ops[0]) == "STATUS.value" and isinstance(a.ops[1], (ast.Tuple, ast.Set, ast.List)) \
+                    and all(text(e).startswith("ComponentStatusEnum.") for e in a.ops[1].elts):
+                named = {text(e).split(".", 1)[1] for e in a.ops[1].elts}
+            else:
+                raise AnalysisError(f"{fn.qual}: cannot interpret the condition `{a.show()}` on the reported status")
+            out &= named if v else set(members) - named
+        return out
+
+    def membership(p: PathSum, which: str) -> tuple[str, int]:
+        """('in' | 'out' | 'unchanged', position of the deciding operation) for the reported id in one set."""
+        tgt = f"self._current_status.{which}"
+        state, at = "unchanged", -1
+        for i, e in enumerate(p.events):
+            if e[0] == "call" and isinstance(e[2].func, ast.Attribute) and text(e[2].func.value) == tgt:
+                op, args = e[2].func.attr, [text(x) for x in e[2].args]
+                if op in ("add", "discard", "remove") and args == [ident] and not e[2].keywords:
+                    state, at = ("in" if op == "add" else "out"), i
+                elif op not in ("__contains__", "copy", "intersection", "union", "difference", "issubset", "issuperset"):
+                    raise AnalysisError(f"{fn.qual}: cannot interpret `{e[1]}` on a published set")
+            elif e[0] == "write" and (e[1] == tgt or e[1].startswith(tgt + "[") or e[1] == "self._current_status"):
+                v = e[2]
+                if e[1] == tgt and isinstance(v, ast.BinOp) and isinstance(v.op, (ast.Sub, ast.BitOr)) \
+                        and isinstance(v.right, ast.Set) and [text(x) for x in v.right.elts] == [ident]:
+                    state, at = ("out" if isinstance(v.op, ast.Sub) else "in"), i
+                else:
+                    raise AnalysisError(f"{fn.qual}: cannot interpret the write `{e[1]} = {text(v)}` to a published set")
+        return state, at
+
+    def is_publish(c: ast.Call) -> bool:
+        return isinstance(c.func, ast.Attribute) and c.func.attr == "send" and \
+            text(c.func.value) == "self._component_status_sender" and [text(x) for x in c.args] == ["self._current_status"]
+
+    seen: set[str] = set()
+    for value, want in MEMBERSHIP.items():
+        side = [p for p in paths if value in possible(p)]
+        seen |= {value} if any(possible(p) == {value} for p in side) else set()
+        bad = first([p for p in side if any(membership(p, w)[0] != how for w, how in want.items())])
+        got = {w: membership(bad, w)[0] for w in want} if bad is not None else {}
+        run.check(bool(side) and bad is None, "C16.POOL", fn.qual, f"{value}: " + ", ".join(f"{w} {h}" for w, h in want.items()),
+                  f"after a {value} status the component is left {got} instead of {want}: a battery reported "
+                  f"{'not working' if value == 'NOT_WORKING' else value.lower()} is still published in a set from which "
+                  "get_working_components() hands it out", node=fn.node, file=fn.file, path=wit(bad),
+                  instance=f"{fn.qual}: membership after {value}")
+    if seen != set(members):
+        raise AnalysisError(f"{fn.qual}: no path handles exactly {sorted(set(members) - seen)}")
+    bad = first([p for p in paths if p.exit not in ("fall", "continue") or not any(
+        i > max(membership(p, "working")[1], membership(p, "uncertain")[1]) for i, _c in p.calls(is_publish))])
+    run.check(bad is None, "C16.POOL", fn.qual, "every update is published",
+              "a status change is applied to the pool status but not sent on the pool status channel (or the loop "
+              "is left): consumers keep using the previous sets", node=fn.node, file=fn.file, path=wit(bad))
+
+
 CONTROLS = [
     ("or instead of and in the battery conjunction", MOD,
      "            and self._is_battery_state_correct(bat_data)\n", "            or self._is_battery_state_correct(bat_data)\n", "C16.SAFE"),
@@ -722,6 +822,14 @@ CONTROLS = [
     ("select loop never entered", MOD, "        while True:\n            try:", "        while False:\n            try:", "C16.TIMER"),
     ("critical-error filter selects the non-critical errors", MOD,
      "if err.level == critical)", "if err.level != critical)", "C16.SAFE"),
+    ("NOT_WORKING leaves the component published as uncertain", POOLMOD,
+     "                self._current_status.working.discard(component_id)\n                self._current_status.uncertain.discard(component_id)\n",
+     "                self._current_status.working.discard(component_id)\n", "C16.POOL"),
+    ("UNCERTAIN component stays in the working set", POOLMOD,
+     "                self._current_status.working.discard(component_id)\n                self._current_status.uncertain.add(component_id)\n",
+     "                self._current_status.uncertain.add(component_id)\n", "C16.POOL"),
+    ("pool status update not published", POOLMOD,
+     "            await self._component_status_sender.send(self._current_status)\n", "            pass\n", "C16.POOL"),
     ("detected change not sent", MOD,
      "                        await status_sender.send(\n                            ComponentStatus(self.battery_id, new_status)\n                        )\n",
      "                        pass\n", "C16.CHANGE"),
@@ -733,6 +841,7 @@ def run_rules(run: Run, prog: Program) -> None:
     check_timer(run, prog)
     check_change(run, prog)
     check_block(run, prog)
+    check_pool(run, prog)
 
 
 def check(run: Run, prog: Program, tier: str) -> str:
@@ -743,7 +852,10 @@ def check(run: Run, prog: Program, tier: str) -> str:
     run.rule("C16.CHANGE", "notifications only for detected changes; detector stores before returning")
     run.rule("C16.BLOCK", "back-off: min on first, unchanged while blocked, min(2*last, max) when expired; "
              "unblock on every success; block on failure unless NOT_WORKING; uncertain only as fallback")
+    run.rule("C16.POOL", "the published pool status: after a status message the component is in `working` only for "
+             "WORKING, in `uncertain` only for UNCERTAIN, in neither for NOT_WORKING, on every path; every update is sent")
     run_rules(run, prog)
+    run.floor("C16.POOL", 4)
     run.floor("C16.SAFE", 16)
     run.floor("C16.TIMER", 13)
     run.floor("C16.CHANGE", 3)
